@@ -83,7 +83,7 @@ class _Builder:
                 pool.append(contig)
             elif k == len(pool):
                 h = self.draw(st.integers(1, 5))
-                contig = "%s#%d#%s.ctg%d" % (self.draw(st.sampled_from(["HG002", "NA1_2", "hap-A", "NA,3"])), h, chrom["name"],
+                contig = "%s#%d#%s.ctg%d" % (self.draw(st.sampled_from(["HG002", "NA1_2", "hap-A", "NA,3", "@hapA"])), h, chrom["name"],
                                              self.draw(st.integers(0, 1)))  # PanSN style: HG002#1#ctg0 and HG002#2#ctg0 are different contigs
                 while contig in self.hap_cursor:
                     contig = contig.replace("#%d#" % h, "#%d#" % (h + 1), 1)
@@ -224,7 +224,7 @@ def rgfa(draw, min_chroms=1, max_chroms=2, max_elements=5, max_ln=9, min_element
     start = draw(st.sampled_from([0, 0, 6, 95, 996]))
     # segment names are arbitrary non-blank strings: also ids with '.', '-' and '#'
     b = _Builder(draw, rnd, [draw(st.sampled_from(["s", "s", "s", ""])),  # "" = purely numeric ids, as vg / odgi / pggb write them
-                             draw(st.sampled_from(["utg", "n", "s0", "s1.", "ctg-", "n#", "b", "s,", "u=", "t;"]))], start, max_ln)
+                             draw(st.sampled_from(["utg", "n", "s0", "s1.", "ctg-", "n#", "b", "s,", "u=", "t;", "@", "@s"]))], start, max_ln)
     b.cycles = cycles
     b.ref_gaps = ref_gaps and draw(st.integers(0, 3)) == 0
     nchrom = draw(st.integers(min_chroms, max_chroms))
@@ -365,6 +365,10 @@ def raw_gfa(draw, max_nodes=7, max_links=12, seq_mode="seq", link_tags=True, seg
             seq = "*"
         else:
             seq = "*" if draw(st.booleans()) else random_seq(rnd, draw(st.integers(1, max_ln)))
+        if soft_masked and seq != "*" and draw(st.integers(0, 5)) == 0:
+            # IUPAC codes that are their own complement (strong / weak): reverse-complementing keeps the letter
+            k = draw(st.integers(0, len(seq) - 1))
+            seq = seq[:k] + draw(st.sampled_from("SWsw")) + seq[k + 1:]
         if soft_masked and seq != "*" and draw(st.integers(0, 3)) == 0:
             k = draw(st.integers(0, len(seq)))
             seq = seq[:k] + seq[k:].lower()  # soft-masked bases are part of the sequence
